@@ -302,11 +302,71 @@ class Termination:
             return False, 'while-True loop without an exit on every path'
         if self._progress(n.body, tn, n.test):
             return True, 'every path through the body shrinks a variable of the loop test or leaves the loop'
-        why = self._iterator_stack(fn, n)
+        why = self._iterator_stack(fn, n) or self._chain_walk(fn, n)
         if why:
             return True, why
         return False, (f'`while {ast.unparse(n.test)[:50]}`: some path through the body neither shrinks a variable of '
                        f'the test nor leaves the loop (possible hang)')
+
+    def _chain_walk(self, fn: FuncInfo, n: ast.While) -> Optional[str]:
+        """`while x is not None:` (or `while x:`) ... `x = x.<link>` on every path through the body, x an instance of a frozen
+        dataclass of the package: a walk along a chain of links that were fixed when each object was constructed - an object
+        can only link to objects that existed before it, so the chain is finite and ends in None."""
+        t = n.test
+        if isinstance(t, ast.Compare) and len(t.ops) == 1 and isinstance(t.ops[0], (ast.IsNot, ast.NotEq)) and \
+                isinstance(t.left, ast.Name) and isinstance(t.comparators[0], ast.Constant) and t.comparators[0].value is None:
+            x = t.left.id
+        elif isinstance(t, ast.Name):
+            x = t.id
+        else:
+            return None
+        from .model import strip_opt
+        ty = strip_opt(self.cg.env(fn).type_of(ast.Name(id=x, ctx=ast.Load())))
+        if ty[0] == 'union':
+            members = {strip_opt(m) for m in ty[1] if strip_opt(m)[0] not in ('none', 'any')}
+            ty = next(iter(members)) if len(members) == 1 else ty
+        cls = self.prog.classes.get(ty[1]) if ty[0] == 'cls' else None
+        if cls is None and fn.cls is not None:
+            # `x = self` before the loop and `x = x.<link>` in it: x is an instance of the enclosing class
+            sites = self.cg.env(fn)._assign_sites.get(x, [])
+            if sites and all(s_[0] == 'expr' and ((isinstance(s_[1], ast.Name) and s_[1].id == 'self') or
+                                                 (isinstance(s_[1], ast.Attribute) and isinstance(s_[1].value, ast.Name)
+                                                  and s_[1].value.id == x)) for s_ in sites):
+                cls = fn.cls
+        if cls is None or not cls.is_dataclass:
+            return None
+        link_fields = {s_.value.attr for s_ in ast.walk(n) if isinstance(s_, ast.Assign) and isinstance(s_.value, ast.Attribute)}
+        if not cls.frozen:
+            # the links must not be re-bound after construction anywhere in the package
+            for f_ in self.prog.all_functions():
+                if f_.name in ('__init__', '__post_init__') and f_.cls is cls:
+                    continue
+                for y in iter_own_nodes(f_.node):
+                    if isinstance(y, ast.Attribute) and isinstance(y.ctx, ast.Store) and y.attr in link_fields:
+                        return None
+
+        def steps(stmts) -> bool:
+            """every path through stmts re-binds x to a link of itself (or leaves the loop)"""
+            for s in stmts:
+                if isinstance(s, (ast.Break, ast.Return, ast.Raise)):
+                    return True
+                if isinstance(s, ast.Assign) and len(s.targets) == 1 and isinstance(s.targets[0], ast.Name) and s.targets[0].id == x:
+                    v = s.value
+                    return isinstance(v, ast.Attribute) and isinstance(v.value, ast.Name) and v.value.id == x and \
+                        v.attr in self.prog.class_fields(cls)
+                if isinstance(s, ast.If) and s.orelse and steps(s.body) and steps(s.orelse):
+                    return True
+                if isinstance(s, ast.Continue):
+                    return False
+            return False
+        if not steps(n.body):
+            return None
+        others = [y for y in ast.walk(n) if isinstance(y, ast.Name) and y.id == x and isinstance(y.ctx, ast.Store)]
+        if len(others) != sum(1 for s in ast.walk(n) if isinstance(s, ast.Assign) and len(s.targets) == 1 and
+                              isinstance(s.targets[0], ast.Name) and s.targets[0].id == x):
+            return None
+        return (f'walk along the `{cls.name}` links, which are fixed at construction: every turn moves `{x}` one link on, '
+                f'the chain is finite and ends in None')
 
     def _iterator_stack(self, fn: FuncInfo, n: ast.While) -> Optional[str]:
         """Depth-first walk with an explicit stack of partly consumed iterators:
